@@ -30,6 +30,9 @@ def must_see(tier):
     m['none-key-present'] = 1
     m['int-extreme-present'] = 1
     m['single-key-raise-unchanged'] = 1
+    for impl in ('c', 'py'):
+        m[impl + ':stored:sweep'] = 300
+        m[impl + ':read-dependency-refused'] = 20
     return m
 
 
@@ -62,8 +65,14 @@ def run_shard(spec, rec):
                 if h % 7 != 6:
                     sizes = gen.NODE_SIZES[h % len(gen.NODE_SIZES)]
                     via_sub = (h % 3 == 1)
+            stored = h % 5 == 3
+            if stored:
+                via_sub = False      # (MiniDB resolves stock classes only)
             ls = hist.LockStep(fam, kind, impl, rng, rec, sizes=sizes,
                                via_subclass=via_sub, structure=False)
+            if stored:
+                # the same oracle on a container that lives in a database
+                hist.attach_db(ls, rec)
             if impl == 'py' and fam.vc == 'F' and h % 6:
                 # F08 (recorded finding: Py keeps doubles) would end almost
                 # every history at its first float; most histories therefore
